@@ -12,12 +12,15 @@ from ..util import (has_call, find_calls, assigned_value, const_str, unparse, kw
                     control_ancestors, guards_of, call_tail, node_ast_for_effects)
 from .. import mutate as M
 
+TECHNIQUE = 'static analysis: flow-sensitive freshness dataflow over the CFG (borrowed / shallow / deep / built levels, helper closures summarised), typestate of the replay buffer incl. generator-abandon edges, iterator-escape and cross-read-state classifiers, aligned-list lockstep rule'
+
 EXPLANATION = ("Family-wide rules over every Source/Environment/Filter class (families computed from the class hierarchy): "
                "R1 no one-shot iterator is stored in long-lived state; R2 every self-state write on a read path is "
                "write-only, a first-time memo, a temporary rewrite restored in a finally covering its yields, or a tabled "
                "by-design replay buffer; R3 freshness analysis: in-place mutations only hit objects created/copied in the "
                "call; R4 randomness on read paths comes from a CobaRandom constructed in the same call; R5 "
                "environments.Cache hands out copies.")
+EXPLANATION += ' R3 also summarises helper closures (a parameter a closure mutates must be bound to an object created in this call at every call site); R8: positionally aligned lists that are cross-indexed are changed in lockstep.'
 
 PRIM = "coba/primitives.py"
 EF = "coba/environments/filters.py"
